@@ -349,6 +349,9 @@ func storeSnapshot(st *sqlite.Store, maxRoot int) snapshot {
 	{
 		vs, err := st.Volumes()
 		sort.Slice(vs, func(i, j int) bool { return vs[i].ID < vs[j].ID })
+		for i := range vs {
+			vs[i].LocalPath = filepath.Base(vs[i].LocalPath) // the directory is the temp dir of the side
+		}
 		used, total, err2 := st.StorageUsage()
 		s["volumes"] = js([]any{vs, errClass(err), used, total, errClass(err2)})
 	}
@@ -418,6 +421,9 @@ func storeSnapshot(st *sqlite.Store, maxRoot int) snapshot {
 	{
 		hs, err := st.Webhooks()
 		sort.Slice(hs, func(i, j int) bool { return hs[i].ID < hs[j].ID })
+		for i := range hs {
+			hs[i].SecretKey = secretClass(hs[i].SecretKey)
+		}
 		s["webhooks"] = js([]any{hs, errClass(err)})
 	}
 	// metrics
@@ -465,6 +471,14 @@ func storeSnapshot(st *sqlite.Store, maxRoot int) snapshot {
 	return s
 }
 
+// secretClass: webhook secrets are random (frand); only their presence is compared.
+func secretClass(s string) string {
+	if s == "" {
+		return ""
+	}
+	return "set"
+}
+
 func rootsCanon(m map[types.FileContractID][]types.Hash256) [][]string {
 	var out [][]string
 	for id, roots := range m {
@@ -510,6 +524,7 @@ func (sd *side) mirrorSnapshot(live []types.FileContractID) snapshot {
 		if len(hs[i].Scopes) == 0 {
 			hs[i].Scopes = nil
 		}
+		hs[i].SecretKey = secretClass(hs[i].SecretKey)
 	}
 	s["m:webhooks"] = js(hs)
 	if m.vm != nil {
@@ -566,6 +581,7 @@ func (sd *side) mirrorOfStore(live []types.FileContractID) snapshot {
 		if len(hs[i].Scopes) == 0 || (len(hs[i].Scopes) == 1 && hs[i].Scopes[0] == "") {
 			hs[i].Scopes = nil
 		}
+		hs[i].SecretKey = secretClass(hs[i].SecretKey)
 	}
 	s["m:webhooks"] = js(hs)
 	return s
